@@ -1,5 +1,6 @@
 import Proofs.Machine.HunkHeaders
 import Proofs.Machine.FileHeaders
+import Proofs.Machine.FileHeaders5
 import Proofs.Headers.Paths
 import Proofs.Headers.HunkHeader
 /-!
@@ -296,5 +297,163 @@ example : rowsOf {} 0 [secA, secB] =
 example : (match run {} (linesOf [secA, secB]) with
     | .ok m => m.out.filter (fun r => r.kind == .file) == rowsOf {} 0 [secA, secB]
     | .error _ => false) = true := by decide
+
+-- whole runs: one file header per section, every kind of section ------------------------------
+
+/-- **`one_file_header_per_section_any`** (whole runs, `Proofs/Machine/FileHeaders2.lean` … `FileHeaders5.lean`).
+For every configuration in which the file header is a row of its own (`FHC`) and every git diff that is a
+list of sections of the kinds git produces (`Sec2`, `Sec2.WF`; decidable form `Sec2.wfb`) —
+* a file section: `diff --git` line, optionally `old mode` / `new mode`, index-like lines and `new file mode` /
+  `deleted file mode` lines, and then one of
+  - the lines naming the old and the new file (`--- `/`+++ `, `rename from/to`, `copy from/to`), for a renamed
+    or copied file with changes the names once more, hunks (`Body.named`: the sections of
+    `one_file_header_per_section`, now also with a mode change);
+  - the two names, index-like lines and a `Binary files … differ` line (`Body.namedBinary`: renamed binary file with changes);
+  - `--- `, `+++ `, a hunk header, `-Subproject commit <hash>`, `+Subproject commit <hash>` (`Body.submodule`: short form),
+    or a single `Subproject commit` line for an added or removed submodule (`Body.submodule1`);
+  - nothing (`Body.bare`: mode-only change, empty added or deleted file);
+  - a `Binary files … differ` line (`Body.binary`; the `diff --git` line must repeat one path, or the file be added / deleted);
+* a submodule log: a `Submodule <path> <old>..<new>:` line and its log lines (`Sec2.log`), not directly after a
+  `bare` / `binary` section (`logOrder`) —
+the file-header rows of delta's output are, in order, exactly one per section (`rowsOf2`):
+for a section that names its files the row written at the line naming the new file (description of the two names
+and the event, the mode change in parentheses: `headerRowA`); for a `bare` / `binary` section the row written *late*
+— its input index is that of the next section's first line, or the number of input lines at the end of input — that
+shows, with a mode change, the name of the `diff --git` line and the mode change, otherwise the description of
+(name, name), (`/dev/null`, name) after `new file mode`, (name, `/dev/null`) after `deleted file mode`, with
+` (binary file)` appended to the names of a binary file (`lateText`, `lateNames`, `binNames`); for a submodule log the
+`Submodule …:` line itself. No section gets two headers, none is skipped, none is out of order. -/
+theorem one_file_header_per_section_any {cfg : Cfg} (hc : FHC cfg) (secs : List Sec2) (w : ∀ s ∈ secs, s.WF)
+    (ho : logOrder false secs = true) {m : M} (e : run cfg (linesOf2 secs) = .ok m) :
+    m.out.filter (fun r => r.kind == .file) = rowsOf2 cfg 0 secs :=
+  run_one_file_row_per_section2 hc secs w ho e
+
+/-- … in particular: as many file-header rows as sections -/
+theorem file_header_count_any {cfg : Cfg} (hc : FHC cfg) (secs : List Sec2) (w : ∀ s ∈ secs, s.WF)
+    (ho : logOrder false secs = true) {m : M} (e : run cfg (linesOf2 secs) = .ok m) :
+    (m.out.filter (fun r => r.kind == .file)).length = secs.length := by
+  rw [one_file_header_per_section_any hc secs w ho e, rowsOf2_length]
+
+/-- a `Subproject commit` line with the hash the implementation's regex captures -/
+def mkS (s : String) (c : String) : L := { mkL s with submodule := some c.toList }
+
+def sModified : Sec2 := .file {
+  d := mkL "diff --git a/y b/y", noise := [mkL "index 1111111..2222222 100644"],
+  body := .named (mkL "--- a/y") (mkL "+++ b/y") none (["@@ -1 +1 @@", "-a", "+b"].map mkL) }
+def sModeOnly : Sec2 := .file {
+  d := mkL "diff --git a/run.sh b/run.sh", modes := some (mkL "old mode 100644", mkL "new mode 100755"), body := .bare }
+def sBinary : Sec2 := .file {
+  d := mkL "diff --git a/img.png b/img.png", noise := [mkL "index 1111111..2222222 100644"],
+  body := .binary (mkL "Binary files a/img.png and b/img.png differ") }
+def sEmptyNew : Sec2 := .file {
+  d := mkL "diff --git a/e.txt b/e.txt", noise := [mkL "new file mode 100644", mkL "index 0000000..e69de29"], body := .bare }
+def sModeAndHunks : Sec2 := .file {
+  d := mkL "diff --git a/x b/x", modes := some (mkL "old mode 100644", mkL "new mode 100755"),
+  noise := [mkL "index 1111111..2222222"],
+  body := .named (mkL "--- a/x") (mkL "+++ b/x") none (["@@ -1 +1 @@", "-a", "+b"].map mkL) }
+def sRenamedMode : Sec2 := .file {
+  d := mkL "diff --git a/o b/n", modes := some (mkL "old mode 100755", mkL "new mode 100644"),
+  noise := [mkL "similarity index 100%"], body := .named (mkL "rename from o") (mkL "rename to n") none [] }
+def sSubShort : Sec2 := .file {
+  d := mkL "diff --git a/sub b/sub", noise := [mkL "index 1111111..2222222 160000"],
+  body := .submodule (mkL "--- a/sub") (mkL "+++ b/sub") (mkL "@@ -1 +1 @@")
+    (mkS "-Subproject commit 1111111111111111111111111111111111111111" "1111111111111111111111111111111111111111")
+    (mkS "+Subproject commit 2222222222222222222222222222222222222222" "2222222222222222222222222222222222222222") }
+def sSubAdded : Sec2 := .file {
+  d := mkL "diff --git a/new-sub b/new-sub", noise := [mkL "new file mode 160000", mkL "index 0000000..1111111"],
+  body := .submodule1 (mkL "--- /dev/null") (mkL "+++ b/new-sub") (mkL "@@ -0,0 +1 @@")
+    (mkS "+Subproject commit 1111111111111111111111111111111111111111" "1111111111111111111111111111111111111111") }
+def sSubRemoved : Sec2 := .file {
+  d := mkL "diff --git a/old-sub b/old-sub", noise := [mkL "deleted file mode 160000", mkL "index 1111111..0000000"],
+  body := .submodule1 (mkL "--- a/old-sub") (mkL "+++ /dev/null") (mkL "@@ -1 +0,0 @@")
+    (mkS "-Subproject commit 1111111111111111111111111111111111111111" "1111111111111111111111111111111111111111") }
+def sSubLog : Sec2 := .log (mkL "Submodule sub 1111111..2222222:") [mkL "  > subject one", mkL "  < subject two"]
+def sRenamedBinary : Sec2 := .file {
+  d := mkL "diff --git a/o.png b/n.png", noise := [mkL "similarity index 90%"],
+  body := .namedBinary (mkL "rename from o.png") (mkL "rename to n.png") [mkL "index 1111111..2222222 100644"]
+    (mkL "Binary files a/o.png and b/n.png differ") }
+def sDeletedBinary : Sec2 := .file {
+  d := mkL "diff --git a/old.bin b/old.bin", noise := [mkL "deleted file mode 100644", mkL "index 1111111..0000000"],
+  body := .binary (mkL "Binary files a/old.bin and /dev/null differ") }
+
+/-- a mode-only section followed by a modified file: the header of the first is written when the second
+`diff --git` line (input line 3) arrives, with the mode change; the hypotheses hold; the model computes it -/
+example : ∀ s ∈ [sModeOnly, sModified], s.WF := wf_of_all (by decide)
+example : logOrder false [sModeOnly, sModified] = true := by decide
+example : rowsOf2 {} 0 [sModeOnly, sModified] =
+    [{ kind := .file, text := "run.sh (mode +x)".toList, src := 3 }, { kind := .file, text := "y".toList, src := 6 }] := by
+  decide
+example : (match run {} (linesOf2 [sModeOnly, sModified]) with
+    | .ok m => m.out.filter (fun r => r.kind == .file) == rowsOf2 {} 0 [sModeOnly, sModified]
+    | .error _ => false) = true := by decide
+
+/-- a binary section at the end of the input: its header is written by the tail of `consume` (index 10 = the
+number of input lines) -/
+example : ∀ s ∈ [sModified, sBinary], s.WF := wf_of_all (by decide)
+example : rowsOf2 {} 0 [sModified, sBinary] =
+    [{ kind := .file, text := "y".toList, src := 3 }, { kind := .file, text := "img.png (binary file)".toList, src := 10 }] := by
+  decide
+example : (match run {} (linesOf2 [sModified, sBinary]) with
+    | .ok m => m.out.filter (fun r => r.kind == .file) == rowsOf2 {} 0 [sModified, sBinary]
+    | .error _ => false) = true := by decide
+
+/-- an empty added file between two ordinary sections -/
+example : ∀ s ∈ [sModified, sEmptyNew, sModified], s.WF := wf_of_all (by decide)
+example : rowsOf2 {} 0 [sModified, sEmptyNew, sModified] =
+    [{ kind := .file, text := "y".toList, src := 3 }, { kind := .file, text := "added: e.txt".toList, src := 10 },
+     { kind := .file, text := "y".toList, src := 13 }] := by decide
+example : (match run {} (linesOf2 [sModified, sEmptyNew, sModified]) with
+    | .ok m => m.out.filter (fun r => r.kind == .file) == rowsOf2 {} 0 [sModified, sEmptyNew, sModified]
+    | .error _ => false) = true := by decide
+
+/-- a mixture: mode change with hunks, renamed file with a mode change, changed / added / removed submodule (short
+form), submodule log, renamed binary file, deleted binary file, binary file -/
+def mixture : List Sec2 :=
+  [sModeAndHunks, sRenamedMode, sSubShort, sSubAdded, sSubRemoved, sSubLog, sRenamedBinary, sDeletedBinary, sBinary]
+example : ∀ s ∈ mixture, s.WF := wf_of_all (by decide)
+example : logOrder false mixture = true := by decide
+example : (rowsOf2 {} 0 mixture).map (fun r => (String.ofList r.text, r.src)) =
+    [("x (mode +x)", 5), ("renamed: o ⟶   n (mode -x)", 14), ("sub", 18), ("added: new-sub", 26),
+     ("removed: old-sub", 33), ("Submodule sub 1111111..2222222:", 36), ("renamed: o.png ⟶   n.png", 42),
+     ("removed: old.bin (binary file)", 49), ("img.png (binary file)", 52)] := by decide
+example : (match run {} (linesOf2 mixture) with
+    | .ok m => m.out.filter (fun r => r.kind == .file) == rowsOf2 {} 0 mixture
+    | .error _ => false) = true := by decide +kernel
+
+/-- the sections of `one_file_header_per_section` are sections of the new theorem, with the same rows -/
+example : rowsOf2 {} 0 [secC.toSec2, secA.toSec2, secB.toSec2] = rowsOf {} 0 [secC, secA, secB] := by decide
+
+/-- **DEFECT** (the hypothesis `logOrder` is needed). A section whose header is written late (here: mode change only)
+directly followed by a submodule log (`git diff --submodule=log`): `handle_submodule_log_line` does not write the
+pending header. The mode change `(mode +x)` of `run.sh` is shown on the *submodule's* header (input line 3), and the
+header of `run.sh` appears after the submodule section (written at input line 6, the next `diff --git` line),
+without its mode change. -/
+theorem late_header_misplaced_before_submodule_log :
+    (match run {} (linesOf2 [sModeOnly, sSubLog, sModified]) with
+     | .ok m => (m.out.filter (fun r => r.kind == .file)).map (fun r => (String.ofList r.text, r.src))
+     | .error _ => []) =
+      [("Submodule sub 1111111..2222222: (mode +x)", 3), ("run.sh", 6), ("y", 9)] := by decide
+
+/-- … and when the submodule log is the last section the pending header (here of an empty added file) is never
+written: the tail of `consume` finds the machine in the submodule state -/
+theorem late_header_lost_before_final_submodule_log :
+    (match run {} (linesOf2 [sEmptyNew, sSubLog]) with
+     | .ok m => (m.out.filter (fun r => r.kind == .file)).map (fun r => (String.ofList r.text, r.src))
+     | .error _ => []) = [("Submodule sub 1111111..2222222:", 3)] := by decide
+
+example : logOrder false [sModeOnly, sSubLog, sModified] = false := by decide
+
+/-- the hypothesis on `Body.binary` is needed: when the `diff --git` line names two different paths (and the file is
+neither added nor deleted) delta has no name for a header and passes the `Binary files` line through instead -/
+theorem binary_two_paths_has_no_file_header :
+    (match run {} (["diff --git a/x b/y", "index 1111111..2222222", "Binary files a/x and b/y differ"].map mkL) with
+     | .ok m => m.out.map (fun r => (r.kind, String.ofList r.text))
+     | .error _ => []) = [(.raw, "Binary files a/x and b/y differ")] := by decide
+
+/-- the hypothesis `ModesWF.arg` is needed for the text: an `old mode ` line without a mode announces no mode change
+(the header is still written once, without addendum) -/
+example : (match run {} (["diff --git a/x b/x", "old mode ", "new mode 100755"].map mkL) with
+     | .ok m => (m.out.filter (fun r => r.kind == .file)).map (fun r => (String.ofList r.text, r.src))
+     | .error _ => []) = [("x", 3)] := by decide
 
 end C14
